@@ -514,6 +514,37 @@ def native_requeue_chain(scratch):
                 signature=dict(op="prune", what="a reprieved entry is skipped after an earlier reprieved entry vanished"))
 
 
+def native_requeue_absent(scratch):
+    """Native scenario for 'a reprieved entry that vanished is skipped, not reported': r0 (read, oldest) is a
+    dangling symbolic link - listed by the scan, ENOENT when re-stamped; prune must still succeed."""
+    import os, shutil
+    from . import scenario
+    nat = getattr(scratch, "_native", None) or scenario.Native(scratch)
+    scratch._native = nat
+    nat.build()
+    bad = []
+    outs = {}
+    for profile in ("debug", "release"):
+        root = nat.sandbox()
+        try:
+            d = os.path.join(root, "w")
+            os.makedirs(d)
+            os.symlink(os.path.join(root, "nowhere"), os.path.join(d, "r0"))
+            os.utime(os.path.join(d, "r0"), ns=(2000 * 10**9, 1000 * 10**9), follow_symlinks=False)
+            for name, mt, at in (("u1", 1001, 900), ("u2", 1002, 900)):
+                pth = os.path.join(d, name)
+                open(pth, "w").write(name)
+                os.utime(pth, ns=(at * 10**9, mt * 10**9))
+            r = nat.run(["prune", d, 2], profile=profile)
+            outs[profile] = r["out"]
+            if "result ok" not in r["out"]:
+                bad.append("%s: prune failed because a reprieved entry had vanished: %r" % (profile, r["out"][:2]))
+        finally:
+            shutil.rmtree(root, ignore_errors=True)
+    return dict(reproduced=len(bad) == 2, detail="; ".join(bad) or "the vanished entry was skipped natively", outputs=outs,
+                signature=dict(op="prune", what="a vanished reprieved entry surfaces as an error"))
+
+
 def native_requeue_error(scratch):
     """Native scenario for 'a re-queue step that fails with anything but an absent-file error is reported':
     `loop` (read, oldest) is a symbolic link to itself - listed by the scan, ELOOP when re-stamped;
@@ -688,6 +719,17 @@ def c07_apply_glue(funcs, text):
                       "any other failure of a step is returned" + ("" if not masked else " -- " + "; ".join(sorted(set(masked)))))
     ob_mask.native_py = native_requeue_error
     obs.append(ob_mask)
+    # tolerance: an error that is_absent_file_error classified as an absent file is never what is returned
+    surfaced = []
+    for (pc, rv, env) in res:
+        if rv[0] == "adt" and rv[1] == "Result" and rv[2] == 1:
+            lits = set(pc)
+            if any(a[0] == rv[3][0][1] and a[1] == pc[:len(a[1])] and a[2] in lits for a in absent_log):
+                surfaced.append("an absent-file error of the re-queue step is returned to the caller")
+    ob_tol = verdict(not surfaced, "C05+C07: apply_update: a reprieved entry that vanished since the scan is skipped, never reported as an error"
+                     + ("" if not surfaced else " -- " + "; ".join(sorted(set(surfaced)))))
+    ob_tol.native_py = native_requeue_absent
+    obs.append(ob_tol)
     # completeness: for every pair of list lengths (a, b) <= MAX_PLAN there is an Ok path with exactly a removals and b re-queues
     shapes = set()
     for (pc, rv, env) in res:
